@@ -47,17 +47,19 @@ Qed.
 Lemma run_records_gen c w d vel L recs j :
   wd_of c = (w, d) -> title_ok c -> box_ok (c_box c) ->
   Forall (fun r => has_vel r = vel) recs -> Forall (fun r => length (line_of w d r) = L) recs ->
-  1 <= j <= length recs ->
+  1 <= j <= length recs -> room c (length recs) ->
   exists st0, w_start c = Ok st0 /\
     w_run st0 (map OpRec (firstn j recs)) = Ok (st_w c w d vel L (firstn j recs)).
 Proof.
-  intros Hwd Ht Hb Hv Hl Hj. eexists. split; [apply (w_start_ok c Ht Hb)|].
+  intros Hwd Ht Hb Hv Hl Hj Hroom. eexists. split; [apply (w_start_ok c Ht Hb)|].
   destruct recs as [|r0 rest]; [simpl in Hj; lia|].
   destruct j as [|j']; [lia|]. cbn [firstn map w_run w_step].
   apply Forall_cons_iff in Hv as [Hv0 Hvr]. apply Forall_cons_iff in Hl as [Hl0 Hlr].
-  rewrite (w_setup_ok c w d vel L Hwd Ht) by assumption.
-  cbn [bind]. rewrite (w_run_recs c w d vel) by (apply Forall_firstn'; assumption).
-  reflexivity.
+  rewrite (w_setup_ok c w d vel L Hwd Ht) by (assumption || (apply (room_le c (length (r0 :: rest))); [simpl; lia|assumption])).
+  cbn [bind]. rewrite (w_run_recs c w d vel).
+  - reflexivity.
+  - apply (room_le c (length (r0 :: rest))); [|assumption]. simpl in *. rewrite firstn_length. lia.
+  - apply Forall_firstn'; assumption.
 Qed.
 
 (* ------------------------------------------------------------------ the domain *)
@@ -122,6 +124,8 @@ Section Main.
   Proof.
     intros Hj. apply run_records_gen; auto using (ro_fmt _ _ _ _ _ H), (ro_title _ _ _ _ _ H),
       (ro_box _ _ _ _ _ H), recs_vel, recs_len.
+    pose proof (ro_count _ _ _ _ _ H) as Hc. unfold count_ok, room in *.
+    destruct (c_natoms c); [subst; lia|exact I].
   Qed.
 
   Lemma count_hyp : match c_natoms c with
